@@ -3,23 +3,27 @@ import keys as K
 import suites as S
 from props import _family as F
 
-PROOF_MODULES = ['Jwt.Props.C01']
-PROP_MODULES = ['Jwt.Props.C01']
-PROP_FILES = ['Jwt/Props/C01.lean']
-GENERATED_FACT_THEOREMS = 0
+PROOF_MODULES = ['Jwt.Props.C01', 'Jwt.Props.C05Ec']
+PROP_MODULES = ['Jwt.Props.C01', 'Jwt.Props.C05Ec']
+PROP_FILES = ['Jwt/Props/C01.lean', 'Jwt/Props/C05Ec.lean', 'Jwt/Lemmas/EcFrame.lean']
+GENERATED_FACT_THEOREMS = 1
 CHECKER_CMD = "cd lean && lake build Jwt.Props.C01 && lake env lean <generated #print axioms file>"
-LEVEL_TEXT = ('Lean theorem C01_sound for every Crypto oracle, JSON codec, provider, checker state, callback and token: rc=0 with a key => token splits at its first two dots, header alg = pinned alg, and the third segment is oracle-valid under that key/alg over the raw first two segments (HMAC: textual equality via jwt_strcmp = 0 <-> equal). Cryptographic validity itself is the oracle; model tied to the code by systematic mutation of valid tokens for every key type on OpenSSL and GnuTLS against an independent EVP oracle.')
+LEVEL_TEXT = ("Lean theorem C01_sound for every Crypto oracle, JSON codec, provider, checker state, callback and token: rc=0 with a key => token splits at its first two dots, header alg = pinned alg, and the third segment is oracle-valid under that key/alg over the raw first two segments (HMAC: textual equality via jwt_strcmp = 0 <-> equal). For ES* the provider glue's r||s handling is inside the model (Jwt/EcFrame.lean over constants regenerated from both sign-verify.c): C01_ecdsa_exact_form proves that on either provider only the algorithm's exact 2w-octet form reaches the library, as the pair of integers it denotes. Cryptographic validity itself is the oracle; model tied to the code by systematic mutation of valid tokens for every key type on OpenSSL and GnuTLS against an independent EVP oracle.")
 ASSUMPTIONS = F.COMMON_ASSUME + ['base64 text malleability of the signature segment (same decoded bytes) is outside C01 for public-key algorithms and counted, not alarmed (DESIGN 10.1)']
 TRUSTED_BASE = F.COMMON_TRUSTED
 replay = F.replay
 
 
 def run(ctx, model_ok, deep=False):
+    import ecframe
+    ecframe.run(ctx, model_ok, deep)
     F.run_suites(ctx, model_ok, deep, [
         ("verify-sig-openssl", lambda w, p, t, r: S.verify_sig(w, p, t, r, "openssl"), S.falsify_accept,
          "per key x admissible alg: valid token + header/payload char edits, segment swap, signature truncation/extension, every single-bit flip of the decoded signature, alt alphabet/padding, re-targeting to every other key/alg and to HMAC under public/empty key; distinct = distinct (answer, mutation class, key, alg)", False),
         ("verify-sig-gnutls", lambda w, p, t, r: S.verify_sig(w, p, t, r, "gnutls"), S.falsify_accept,
          "same mutation set under the GnuTLS provider", False),
+        ("key-lifecycle", S.key_lifecycle_suite, S.falsify_accept,
+         "per key type and provider: one keyring slot loaded, used, freed and re-loaded 6 (quick) / 12 (thorough) times with two keys of the same type and size in turn; after every re-load the retired key's token must fail and the current key's must verify", False),
         ("alg-matrix-sample", 150 if not (ctx.tier == "thorough" or deep) else None, S.falsify_accept,
          "sample of the C02 matrix cells (all cells in thorough)", False),
     ])
